@@ -7,7 +7,6 @@ import (
 	"flag"
 	"go/ast"
 	"go/printer"
-	"sort"
 	"fmt"
 	"os"
 	"strconv"
@@ -208,19 +207,10 @@ func reffuncs(args []string) {
 		fmt.Println(err)
 		os.Exit(1)
 	}
-	var out []string
-	for _, pk := range p.Pkgs {
-		for _, f := range pk.Syntax {
-			for _, d := range f.Decls {
-				if fd, ok := d.(*ast.FuncDecl); ok {
-					out = append(out, engine.FuncKey(pk.PkgPath, fd))
-				}
-			}
-		}
-	}
-	sort.Strings(out)
-	fmt.Println("# functions and methods of the reference tree; calls of functions not listed here are expanded before analysis")
-	for _, l := range out {
+	fmt.Println("# declarations of the reference tree: functions/methods with signature, struct fields with type.")
+	fmt.Println("# calls of functions not listed here are expanded before analysis; a listed declaration that reappears under")
+	fmt.Println("# another name with the same signature/type is given its reference name back (engine/norm.go)")
+	for _, l := range engine.ReferenceLines(p.Pkgs) {
 		fmt.Println(l)
 	}
 }
